@@ -25,8 +25,8 @@ func VerifMsg(m *ProducerMessage) VerifMsgInfo {
 
 // VerifRecordingPartitioner records how often it was consulted and what it chose.
 type VerifRecordingPartitioner struct {
-	Calls int
-	Last  int32
+	Calls             int
+	Last              int32
 	NumPartitionsSeen []int32
 }
 
